@@ -2,10 +2,7 @@ package rules
 
 import (
 	"fmt"
-	"go/ast"
-	"go/constant"
 	"go/token"
-	"go/types"
 	"os"
 	"strings"
 
@@ -65,11 +62,11 @@ func c18(w *core.World, r *core.Report) {
 	r.Rule("R18.4", "cluster client re-validation before MULTI is sent", 4)
 	ruleTxnBatcherValidation(w, r)
 
-	r.Rule("R18.5", "a unit is emitted only on the builder's success edge", 2)
+	r.Rule("R18.5", "a unit is emitted only on the builder's success edge", 1)
 	if f := fn(w, r, "(*syncer.RedisOutput).parseAofReplayUnits"); f != nil {
 		var emit *ssa.Function
 		for _, c := range core.DeepFuncs(f)[1:] {
-			for _, in := range core.Instrs(c) {
+			for _, in := range core.OwnInstrs(c) {
 				if sel, ok := in.(*ssa.Select); ok {
 					for _, st := range sel.States {
 						if st.Send != nil && strings.HasSuffix(st.Send.Type().String(), "bisyncReplayUnit") {
@@ -80,18 +77,21 @@ func c18(w *core.World, r *core.Report) {
 			}
 		}
 		n := 0
-		for _, s := range core.Sites(f, false) {
-			if emit == nil || s.Callee != emit {
-				continue
-			}
-			n++
-			okB := false
-			for _, bs := range core.SitesNamed(f, false, unitBuilder) {
-				if core.Dominates(bs.Instr, s.Instr) && core.OnSuccessOf(s.Instr.Block(), bs.Value()) && core.Unwrap(s.Args()[0]) == extractOf(bs.Value(), 0) {
-					okB = true
+		// the emit closure is called from the parser itself, or from a closure that builds and emits
+		for _, g := range core.DeepFuncs(f) {
+			for _, s := range core.Sites(g, false) {
+				if emit == nil || s.Callee != emit || s.Instr.Parent() != g {
+					continue
 				}
+				n++
+				okB := false
+				for _, bs := range core.SitesNamed(g, false, unitBuilder) {
+					if core.Dominates(bs.Instr, s.Instr) && core.OnSuccessOf(s.Instr.Block(), bs.Value()) && core.Unwrap(s.Args()[0]) == extractOf(bs.Value(), 0) {
+						okB = true
+					}
+				}
+				r.Check(okB, "parseAofReplayUnits/emit-after-success", s.Pos(), "a unit is emitted without the builder having succeeded for it (a refused unit must stop the replay before anything is sent)")
 			}
-			r.Check(okB, "parseAofReplayUnits/emit-after-success", s.Pos(), "a unit is emitted without the builder having succeeded for it (a refused unit must stop the replay before anything is sent)")
 		}
 		if n == 0 {
 			r.Fail("parseAofReplayUnits/emit-after-success", f.Pos(), "no emit site found")
@@ -209,14 +209,14 @@ func ruleBuilderVisitsAll(w *core.World, r *core.Report, b *ssa.Function) {
 		if why == "" {
 			// slot mismatch in strict mode
 			for _, fct := range p.Conds {
-				c, ok := core.AsCmp(fct.Cond, fct.Val)
+				c, ok := core.FactCmp(fct)
 				if ok && c.Op == token.NEQ && (isKeySlot(p.Resolve(c.X)) || isKeySlot(p.Resolve(c.Y))) {
 					strict := true
 					for _, f2 := range p.Conds {
 						if f2.Val && core.IsFieldLoad(core.Unwrap(p.Resolve(f2.Cond)), "", "allowCrossSlot") {
 							strict = false
 						}
-						if c2, ok := core.AsCmp(f2.Cond, f2.Val); ok && c2.Op == token.NEQ && core.IsNilConst(c2.Y) && core.IsFieldLoad(core.Unwrap(p.Resolve(c2.X)), "", "forceSlot") {
+						if c2, ok := core.FactCmp(f2); ok && c2.Op == token.NEQ && core.IsNilConst(c2.Y) && core.IsFieldLoad(core.Unwrap(p.Resolve(c2.X)), "", "forceSlot") {
 							strict = false
 						}
 					}
@@ -229,7 +229,7 @@ func ruleBuilderVisitsAll(w *core.World, r *core.Report, b *ssa.Function) {
 		if os.Getenv("GUNYU_DEBUG") != "" && !refused {
 			fmt.Println("DEBUG unit path why=", why, "conds=", len(p.Conds))
 			for _, fct := range p.Conds {
-				if c, ok := core.AsCmp(fct.Cond, fct.Val); ok {
+				if c, ok := core.FactCmp(fct); ok {
 					fmt.Println("   ", c.Op, p.Resolve(c.X).String(), "|", p.Resolve(c.Y).String())
 				} else {
 					fmt.Println("   ", fct.Val, fct.Cond.String())
@@ -366,54 +366,35 @@ func ruleCommandKeysKeepsAll(w *core.World, r *core.Report) {
 }
 
 func ruleControlKeys(w *core.World, r *core.Report) {
-	p := w.Pkg("pkg/redis/checkpoint")
 	for _, name := range []string{"BisyncMarkerKey", "BisyncCommitIndexKey", "BisyncLatestCheckpointKey", "BisyncCommitRecordKey", "BisyncRdbRecordKey"} {
-		fd, _ := w.FuncDecl("pkg/redis/checkpoint", "", name)
-		if fd == nil {
-			r.Unresolved("checkpoint."+name, "constructor not found")
+		f := fn(w, r, "pkg/redis/checkpoint."+name)
+		if f == nil {
 			continue
 		}
+		t, okT := funcStrTemplate(f)
+		if !okT {
+			r.Undecided("checkpoint."+name+"/one-hash-tag", f.Pos(), "the shape of the key this function builds could not be determined")
+			continue
+		}
+		// exactly one brace pair in the constant parts, and what stands between "{" and "}" is the
+		// constructor's second parameter: the position at which the dispatcher hands over the unit's
+		// slot tag (checked below)
+		opens, closes := 0, 0
 		ok := false
-		ast.Inspect(fd.Body, func(n ast.Node) bool {
-			call, isCall := n.(*ast.CallExpr)
-			if !isCall || len(call.Args) < 3 {
-				return true
+		for i, pc := range t {
+			if pc.hole != nil {
+				continue
 			}
-			if se, isSel := call.Fun.(*ast.SelectorExpr); !isSel || se.Sel.Name != "Sprintf" {
-				return true
-			}
-			f0 := p.TypesInfo.Types[call.Args[0]].Value
-			if f0 == nil {
-				return true
-			}
-			format := constant.StringVal(f0)
-			// exactly one brace pair, and it is {%s}
-			if strings.Count(format, "{") == 1 && strings.Count(format, "}") == 1 && strings.Contains(format, "{%s}") {
-				// the operand inside the braces is the slotTag parameter: verbs before {%s}
-				verbs := strings.Count(format[:strings.Index(format, "{%s}")], "%")
-				if 1+verbs < len(call.Args) {
-					// the operand inside the braces is the constructor's second parameter: the position
-					// at which the dispatcher hands over the unit's slot tag (checked below)
-					if id, isID := call.Args[1+verbs].(*ast.Ident); isID {
-						var second types.Object
-						k := 0
-						for _, fl := range fd.Type.Params.List {
-							for _, nm := range fl.Names {
-								if k == 1 {
-									second = p.TypesInfo.Defs[nm]
-								}
-								k++
-							}
-						}
-						if second != nil && p.TypesInfo.Uses[id] == second {
-							ok = true
-						}
-					}
+			opens += strings.Count(pc.lit, "{")
+			closes += strings.Count(pc.lit, "}")
+			if strings.HasSuffix(pc.lit, "{") && i+2 < len(t) && t[i+1].hole != nil && t[i+2].hole == nil && strings.HasPrefix(t[i+2].lit, "}") {
+				if par, isP := t[i+1].hole.(*ssa.Parameter); isP && len(f.Params) >= 2 && par == f.Params[1] {
+					ok = true
 				}
 			}
-			return true
-		})
-		r.Check(ok, "checkpoint."+name+"/one-hash-tag", fd.Pos(), "a control key must contain exactly one brace pair, around the slot tag, so that it hashes to the unit's slot")
+		}
+		ok = ok && opens == 1 && closes == 1
+		r.Check(ok, "checkpoint."+name+"/one-hash-tag", f.Pos(), "a control key must contain exactly one brace pair, around the slot tag, so that it hashes to the unit's slot")
 	}
 	// the checkpoint name used inside those keys is brace-free
 	if f := fn(w, r, "pkg/redis/checkpoint.NewBisyncCheckpointName"); f != nil {
@@ -506,7 +487,7 @@ func ruleTxnBatcherValidation(w *core.World, r *core.Report) {
 		okFirst := false
 		for _, s := range core.SitesNamed(d, false, "(*pkg/redis/client/cluster.txnBatcher).dispatchToNode") {
 			for _, fct := range core.FactsAt(s.Instr.Block()) {
-				c, ok := core.AsCmp(fct.Cond, fct.Val)
+				c, ok := core.FactCmp(fct)
 				if ok && c.Op == token.EQL && core.IsNilConst(c.Y) && core.IsFieldLoad(core.Unwrap(c.X), "txnBatcher", "err") {
 					okFirst = true
 				}
@@ -533,7 +514,7 @@ func ruleRefusalReasons(w *core.World, r *core.Report, b *ssa.Function) {
 			return
 		}
 		last := p.Conds[len(p.Conds)-1]
-		c, isCmp := core.AsCmp(last.Cond, last.Val)
+		c, isCmp := core.FactCmp(last)
 		okReason := false
 		if isCmp {
 			x, y := core.Unwrap(p.Resolve(c.X)), core.Unwrap(p.Resolve(c.Y))
@@ -554,6 +535,12 @@ func ruleRefusalReasons(w *core.World, r *core.Report, b *ssa.Function) {
 			// "no slot recorded yet": a boolean that starts false and is only ever set to true
 			if ph, isPhi := v.(*ssa.Phi); isPhi && !last.Val && isSeenFlag(ph) {
 				okReason = true
+			}
+		}
+		if !okReason && os.Getenv("GUNYU_DEBUG") != "" {
+			fmt.Println("DEBUG refusal last fact:", last.Val, last.Cond.String(), "res=", last.Res, "isCmp=", isCmp)
+			if isCmp {
+				fmt.Println("   ", c.Op, p.Resolve(c.X).String(), "|", p.Resolve(c.Y).String())
 			}
 		}
 		if !okReason {
